@@ -405,6 +405,8 @@ pub fn fuzz_seeds() -> Vec<String> {
 }
 
 pub fn run(ctx: &Ctx) -> i32 {
+    let corpus: Vec<serde_json::Value> = crate::util::corpus_programs().into_iter().map(|s| json!({"source": s})).collect();
+    ctx.enumerate("repo-corpus", corpus, |c| outcome(c["source"].as_str().unwrap_or(""), &ctx.known));
     ctx.run_replays(|_check, case| {
         let src = case.get("source")?.as_str()?;
         Some(outcome(src, &ctx.known))
